@@ -160,7 +160,12 @@ def run_case(case):
                 do_add(a[1], a[2], a[3], a[4], a[5], a[6] if len(a) > 6 else False)
             elif kind == "rm_key":
                 alive = [r for r in live if chk.regs[r].alive]
-                if alive:
+                dead = [r for r in live if not chk.regs[r].alive]
+                if a[1] % 3 == 0 and dead:
+                    # a key that was removed before (double stop, idempotent clean-up): must remove nothing
+                    st["stale_key_removals"] = st.get("stale_key_removals", 0) + 1
+                    ev.remove_handler_by_key(keys[dead[(a[1] // 3) % len(dead)]])
+                elif alive:
                     rid = alive[a[1] % len(alive)]
                     chk.remove_reg(rid)
                     ev.remove_handler_by_key(keys[rid])
@@ -351,6 +356,7 @@ def run_case(case):
     chk.obs["contexts_used"] = len(st["ctx_used"])
     chk.obs["handler_results_not_none"] = st.get("non_none_results", 0)
     chk.obs["run_now_from_handler"] = st.get("run_now", 0)
+    chk.obs["stale_key_removals"] = st.get("stale_key_removals", 0)
     chk.obs["switch_report_from_handler"] = st.get("inner_switch", 0)
     return {"violations": chk.viol, "clauses": chk.clauses, "shape": shape,
             "nontrivial": ninv >= 3 and st["depth_seen"] >= 1 and chk.obs["callbacks"] >= 1, "obs": chk.obs}
